@@ -90,6 +90,34 @@ def modelXf (ws : List String) : String :=
     | _, _, _, _, _ => "bad-op"
   | _ => "bad-op"
 
+/-- two lifted transformations in a row: `xf2 T w h s <op1> then <op2>` -/
+def splitThen (ws : List String) : List String × List String :=
+  (ws.takeWhile (· != "then"), (ws.dropWhile (· != "then")).drop 1)
+
+def xf2List (x2 : Xf) : List Fmt := match x2 with | .nth _ => L6 | _ => L7
+
+def modelXf2 (ws : List String) : String :=
+  match ws with
+  | T :: w :: h :: s :: rest =>
+    let (r1, r2) := splitThen rest
+    match Fmt.parse T, w.toNat?, h.toNat?, s.toNat?, parseXf r1, parseXf r2 with
+    | some f, some w, some h, some s, some (n1, x1), some (n2, x2) =>
+      let L := xf2List x2
+      if !L.contains f then "bad-type" else
+      let (img, hp) := heap0.make f w h s
+      let v := img.view
+      let r := x2.apply (x1.apply v)
+      let tg (g : Fmt) := x2.tag (x1.tag (Tag.ofFmt g))
+      let idx := indexOf (tg f) (L.map tg)
+      let d := descr r (tg f).fmt.bits hp.mem
+      let m' := if xfWritable x1 && xfWritable x2 then toggleAt r hp.mem 0 0 else hp.mem
+      let src := dumpHex v f.bits m'
+      let C := s!"C:ok {d} src={src}"
+      if knownNoCompile.contains n1 || knownNoCompile.contains n2 then s!"A:err:no-compile | {C}"
+      else s!"A:ok i={idx} ty=1 {d} src={src} | {C}"
+    | _, _, _, _, _, _ => "bad-op"
+  | _ => "bad-op"
+
 /-! #### binary algorithms -/
 
 inductive BinAlg where | copy | equal | ccopy (c : Conv) | rs (mat : List Int) | rsz
@@ -250,6 +278,7 @@ def modelImg (ws : List String) : String :=
 def model (line : String) : String :=
   match words line with
   | "xf" :: rest => modelXf rest
+  | "xf2" :: rest => modelXf2 rest
   | "fill" :: rest => modelFill rest
   | "foreach" :: rest => modelForeach rest
   | "img" :: rest => modelImg rest
@@ -275,11 +304,10 @@ def without (keys : List String) (toks : List String) : List String :=
 
 def fail (s : String) : String := "fail " ++ s
 
-def judgeXf (ws : List String) (obs : String) : String :=
-  match ws with
-  | T :: _w :: _h :: _s :: rest =>
-    match Fmt.parse T, parseXf rest, splitBars obs with
-    | some f, some (_, x), [A, C] =>
+/-- `tg`: the mapped alternative of each alternative of the list `L` the op runs on -/
+def judgeLifted (f : Fmt) (L : List Fmt) (tg : Fmt → Tag) (obs : String) : String :=
+    match splitBars obs with
+    | [A, C] =>
       match A, C with
       | st :: arest, "C:ok" :: crest =>
         if st != "A:ok" then fail ("lifted-transformation-unavailable:" ++ st)
@@ -292,15 +320,30 @@ def judgeXf (ws : List String) (obs : String) : String :=
            else fail "write-through-differs-from-concrete")
         else
           -- the alternative is the corresponding one: same position, unless the mapped list repeats the type
-          let L := xfList x
-          let mapped := L.map (fun g => x.tag (Tag.ofFmt g))
+          -- (then a variant constructed from the result holds the first alternative of that type)
           let own := indexOf f L
-          let expect := indexOf (x.tag (Tag.ofFmt f)) mapped
+          let expect := indexOf (tg f) (L.map tg)
           match (field "i" arest).bind String.toNat? with
           | some i => if i = own || i = expect then "ok" else fail "index-not-preserved"
           | none => fail "no-index"
       | _, _ => fail ("unexpected-observation:" ++ obs.take 60)
-    | _, _, _ => fail ("unexpected-observation:" ++ obs.take 60)
+    | _ => fail ("unexpected-observation:" ++ obs.take 60)
+
+def judgeXf (ws : List String) (obs : String) : String :=
+  match ws with
+  | T :: _w :: _h :: _s :: rest =>
+    match Fmt.parse T, parseXf rest with
+    | some f, some (_, x) => judgeLifted f (xfList x) (fun g => x.tag (Tag.ofFmt g)) obs
+    | _, _ => fail "bad-op"
+  | _ => fail "bad-op"
+
+def judgeXf2 (ws : List String) (obs : String) : String :=
+  match ws with
+  | T :: _w :: _h :: _s :: rest =>
+    let (r1, r2) := splitThen rest
+    match Fmt.parse T, parseXf r1, parseXf r2 with
+    | some f, some (_, x1), some (_, x2) => judgeLifted f (xf2List x2) (fun g => x2.tag (x1.tag (Tag.ofFmt g))) obs
+    | _, _, _ => fail "bad-op"
   | _ => fail "bad-op"
 
 def judgeBin (name : String) (ws : List String) (obs : String) : String :=
@@ -417,6 +460,7 @@ def judgeImg (ws : List String) (obs : String) : String :=
 def judge (op obs : String) : String :=
   match words op with
   | "xf" :: rest => judgeXf rest obs
+  | "xf2" :: rest => judgeXf2 rest obs
   | "fill" :: rest => judgeFill rest obs
   | "foreach" :: _ => judgeForeach obs
   | "img" :: rest => judgeImg rest obs
